@@ -121,13 +121,11 @@ Definition show_viol (v : viol) : string :=
 (* ---- known classes ---- *)
 
 Definition KEY_PROBE_ROUTER : string := "probe-reject-for-router-ip-to-unhunted-mac".
-Definition KEY_AFTER_CLOSE : string := "forged-reply-on-receive-path-after-close".
 
 (* the recorded class a violated clause at this position falls in, if any *)
 Definition explain (c : cfg) (s : state) (e : event) (v : viol) : option string :=
   match v with
   | VConfined => if known_C13_probe_router c s e then Some KEY_PROBE_ROUTER else None
-  | VCloseStops => if known_C13_reply_after_close c s e then Some KEY_AFTER_CLOSE else None
   | _ => None
   end.
 
